@@ -38,6 +38,9 @@ BODIES = {
     "fiber_stage_closure": "var prev = keep[(i + KEEP - 1) % KEEP]; var fb = Fiber.new(|p| { var state = [0]; return |v| { state[0] = state[0] + v; return state[0]; }; }); var acc = fb.call(prev); acc(i); keep[i % KEEP] = acc; total += 1;",
     "fiber_stage_param_closure": "var prev = keep[(i + KEEP - 1) % KEEP]; var fb = Fiber.new(|p| { var mine = [i]; var pad = p; Fiber.yield(|| mine); return 0; }); var g = fb.call(prev); fb.call(); keep[i % KEEP] = g; total += g().len();",
     "fiber_stage_block_closure": "var prev = keep[(i + KEEP - 1) % KEEP]; var fb = Fiber.new(|p| { var out = nil; { var inner = [i, 1]; out = || inner; } var hold = p; return out; }); keep[i % KEEP] = fb.call(prev); total += 1;",
+    "closure_sibling_capture": "var prev = keep[(i + KEEP - 1) % KEEP]; fn mk(p) { var a = p; var ga = || a; var b = [i]; return || b; } keep[i % KEEP] = mk(prev); total += 1;",
+    "closure_sibling_capture_block": "var prev = keep[(i + KEEP - 1) % KEEP]; var out = nil; { var a = prev; var ga = || a; var b = [i]; out = || b; } keep[i % KEEP] = out; total += 1;",
+    "closure_sibling_capture_param": "var prev = keep[(i + KEEP - 1) % KEEP]; var mk = |p| { var user = || p; var own = (i,); return || own; }; keep[i % KEEP] = mk(prev); total += 1;",
     "iter_chain": "var o = [i, i + 1, i + 2].iter().map(|v| v * 2).filter(|v| v % 4 == 0).collect(); keep[i % KEEP] = o; total += o.len();",
     "iterators": "var a = [i].iter(); var b = (i,).iter(); var c = \"ab\".iter(); var d = (0..2).iter(); a.next(); b.next(); c.next(); d.next(); keep[i % KEEP] = [a, b, c, d]; total += 1;",
     "caught_error": "try { nil + i; } catch e { keep[i % KEEP] = e; total += 1; }",
